@@ -18,6 +18,7 @@ package main
 
 import (
 	"fmt"
+	"os"
 	"go/ast"
 	"go/constant"
 	"go/token"
@@ -38,7 +39,22 @@ const (
 	avKeyBits // a value of the key type rebuilt from a word
 	avFloat   // a float special: inf+, inf-, nan, or a finite constant
 	avTuple   // the results of a multi-value call
+	avLanes   // a word put together from bytes of other words (hand-written byte order)
 )
+
+// laneSrc: one byte of a value – byte k (0 = least significant) of word, or zero.
+type laneSrc struct {
+	word *aval
+	k    int
+	zero bool
+}
+
+func (l laneSrc) same(o laneSrc) bool {
+	if l.zero || o.zero {
+		return l.zero == o.zero
+	}
+	return l.k == o.k && l.word.String() == o.word.String() && l.word.w == o.word.w
+}
 
 type aval struct {
 	kind   avKind
@@ -53,7 +69,9 @@ type aval struct {
 	fclass string  // avFloat
 	tuple  []*aval // avTuple
 	fconst float64
-	why    string // avUnknown
+	why    string    // avUnknown
+	lanes  []laneSrc // avLanes: most significant byte first; avBytes: the bytes by index (nil entries = not written)
+	set    []bool    // avBytes with lanes: which indices have been written
 }
 
 func unknown(format string, args ...any) *aval {
@@ -97,6 +115,20 @@ func (v *aval) String() string {
 		if v.word != nil {
 			return fmt.Sprintf("[%d]byte{%s %s}", v.blen, v.order, v.word)
 		}
+		if v.lanes != nil {
+			var parts []string
+			for i, l := range v.lanes {
+				switch {
+				case i < len(v.set) && !v.set[i]:
+					parts = append(parts, "??")
+				case l.zero:
+					parts = append(parts, "00")
+				default:
+					parts = append(parts, fmt.Sprintf("%s.byte%d", l.word, l.k))
+				}
+			}
+			return fmt.Sprintf("[%d]byte{%s}", v.blen, strings.Join(parts, " "))
+		}
 		return fmt.Sprintf("[%d]byte", v.blen)
 	case avKeyBits:
 		return "bits(" + v.word.String() + ")"
@@ -105,6 +137,16 @@ func (v *aval) String() string {
 			return v.fclass
 		}
 		return fmt.Sprint(v.fconst)
+	case avLanes:
+		var parts []string
+		for _, l := range v.lanes {
+			if l.zero {
+				parts = append(parts, "00")
+			} else {
+				parts = append(parts, fmt.Sprintf("%s.byte%d", l.word, l.k))
+			}
+		}
+		return "lanes[" + strings.Join(parts, " ") + "]"
 	case avTuple:
 		var parts []string
 		for _, t := range v.tuple {
@@ -126,6 +168,159 @@ func (v *aval) rng(cl *keyClass) (lo, hi *big.Int) {
 }
 
 func pow2(n int) *big.Int { return new(big.Int).Lsh(big.NewInt(1), uint(n)) }
+
+// lanesOf: v as w/8 bytes, most significant first (nil if v has no byte structure).
+func lanesOf(v *aval, w int) []laneSrc {
+	if w <= 0 || w%8 != 0 {
+		return nil
+	}
+	n := w / 8
+	var src []laneSrc
+	switch v.kind {
+	case avLanes:
+		src = v.lanes
+	case avWord:
+		vw := v.w
+		if vw == 0 {
+			vw = w
+		}
+		if vw%8 != 0 {
+			return nil
+		}
+		if v.a == 0 && v.b.Sign() == 0 {
+			for i := 0; i < vw/8; i++ {
+				src = append(src, laneSrc{zero: true})
+			}
+		} else {
+			vv := v
+			if v.w == 0 {
+				vv = &aval{kind: avWord, w: vw, a: v.a, b: v.b}
+			}
+			for k := vw/8 - 1; k >= 0; k-- {
+				src = append(src, laneSrc{word: vv, k: k})
+			}
+		}
+	default:
+		return nil
+	}
+	// zero-extend or truncate at the top
+	for len(src) < n {
+		src = append([]laneSrc{{zero: true}}, src...)
+	}
+	return src[len(src)-n:]
+}
+
+// canonLanes: the lanes as a plain word when they are the bytes of one word in order (possibly
+// zero-extended), the lane value otherwise.
+func (it *codecInterp) canonLanes(l []laneSrc, w int) *aval {
+	z := 0
+	for z < len(l) && l[z].zero {
+		z++
+	}
+	if z == len(l) {
+		return constWord(w, new(big.Int))
+	}
+	rest := l[z:]
+	W := rest[0].word
+	ok := W != nil
+	for i, ln := range rest {
+		if ln.zero || ln.word != W && !(ln.word.String() == W.String() && ln.word.w == W.w) || ln.k != len(rest)-1-i {
+			ok = false
+		}
+	}
+	if ok && (W.w == 8*len(rest) || it.fits(W, 8*len(rest))) {
+		return &aval{kind: avWord, w: w, a: W.a, b: W.b}
+	}
+	// constant lanes of constant words fold
+	return &aval{kind: avLanes, w: w, lanes: l}
+}
+
+// fits: every value the word takes on the current class is below 2^bits (its higher bytes are zero).
+func (it *codecInterp) fits(W *aval, bits int) bool {
+	if it == nil || it.cl == nil || W == nil || W.kind != avWord || bits >= W.w {
+		return false
+	}
+	lo, hi := W.rng(it.cl)
+	return lo.Sign() >= 0 && hi.Cmp(pow2(bits)) < 0
+}
+
+// bytesLanes: the bytes of a slice value by index.
+func bytesLanes(v *aval) ([]laneSrc, []bool) {
+	n := int(v.blen)
+	if v.lanes != nil {
+		return v.lanes, v.set
+	}
+	out := make([]laneSrc, n)
+	set := make([]bool, n)
+	if v.word == nil {
+		return out, set
+	}
+	for i := 0; i < n; i++ {
+		k := n - 1 - i
+		if v.order == "little" {
+			k = i
+		}
+		out[i] = laneSrc{word: v.word, k: k}
+		if v.word.a == 0 && v.word.b.Sign() == 0 {
+			out[i] = laneSrc{zero: true}
+		}
+		set[i] = true
+	}
+	return out, set
+}
+
+// canonBytes: a slice whose bytes are all written and are the bytes of one word in big- or
+// little-endian order becomes that word with its order.
+func (it *codecInterp) canonBytes(lanes []laneSrc, set []bool) *aval {
+	n := len(lanes)
+	res := &aval{kind: avBytes, blen: int64(n), lanes: lanes, set: set}
+	for _, s := range set {
+		if !s {
+			return res
+		}
+	}
+	if n == 0 {
+		return res
+	}
+	for _, order := range []string{"big", "little"} {
+		var W *aval
+		ok := true
+		for i, ln := range lanes {
+			k := n - 1 - i
+			if order == "little" {
+				k = i
+			}
+			if ln.zero || ln.k != k || (ln.word.w != 8*n && !it.fits(ln.word, 8*n)) {
+				ok = false
+				break
+			}
+			if W == nil {
+				W = ln.word // the word of the first byte examined; the others must agree with it on their byte
+			} else if W.String() != ln.word.String() || W.w != ln.word.w {
+				// another word that differs from W by a constant whose low 8(k+1) bits are zero has
+				// the same byte k (a sign flip applied to the top byte only)
+				if W.w != ln.word.w || W.a != ln.word.a || W.kind != avWord || ln.word.kind != avWord {
+					ok = false
+					break
+				}
+				d := new(big.Int).Sub(W.b, ln.word.b)
+				d.Mod(d, pow2(W.w))
+				if new(big.Int).Mod(d, pow2(8*(ln.k+1))).Sign() != 0 {
+					ok = false
+					break
+				}
+				// W must be the word that carries the change: keep the one whose higher bytes were examined first
+			}
+		}
+		if ok {
+			if W.w != 8*n {
+				W = &aval{kind: avWord, w: 8 * n, a: W.a, b: W.b} // the low bytes of a wider word whose value fits
+			}
+			return &aval{kind: avBytes, blen: int64(n), word: W, order: order}
+		}
+	}
+	return res
+}
 
 // top: the top bit of the word on the class, if it is the same for every m (-1 otherwise).
 func (v *aval) top(cl *keyClass) int {
@@ -407,6 +602,9 @@ func (it *codecInterp) eval(e ast.Expr, st *istate) *aval {
 			return it.compare(x.Op, l, r, it.typeOf(x.X), it.typeOf(x.Y))
 		}
 		l, r := it.eval(x.X, st), it.eval(x.Y, st)
+		if res := it.laneOp(x.Op, l, r, it.bitsOf(it.typeOf(e))); res != nil {
+			return res
+		}
 		if l.kind != avWord || r.kind != avWord {
 			return it.giveUp("%s %s %s", l, x.Op, r)
 		}
@@ -499,13 +697,54 @@ func (it *codecInterp) eval(e ast.Expr, st *istate) *aval {
 		}
 		return it.giveUp("operator %s", x.Op)
 	case *ast.IndexExpr:
+		if tv := it.tableLookup(x, st); tv != nil {
+			return tv
+		}
 		v := it.eval(x.X, st)
 		if v.kind == avBytes && v.word != nil && v.blen == 1 {
 			if tv, ok := info.Types[x.Index]; ok && tv.Value != nil && tv.Value.ExactString() == "0" {
 				return v.word
 			}
 		}
+		if v.kind == avBytes && (v.word != nil || v.lanes != nil) {
+			if iv := it.eval(x.Index, st); iv.kind == avWord && iv.a == 0 && iv.b.IsInt64() {
+				i := iv.b.Int64()
+				lanes, set := bytesLanes(v)
+				if i >= 0 && i < int64(len(lanes)) && set[i] {
+					return it.canonLanes([]laneSrc{lanes[i]}, 8)
+				}
+				return it.giveUp("index %d into %s", i, v)
+			}
+		}
 		return it.giveUp("index into %s", v)
+	case *ast.SliceExpr:
+		v := it.eval(x.X, st)
+		if v.kind == avBytes && x.Max == nil {
+			lo, hi := int64(0), v.blen
+			okB := true
+			if x.Low != nil {
+				if b := it.eval(x.Low, st); b.kind == avWord && b.a == 0 && b.b.IsInt64() {
+					lo = b.b.Int64()
+				} else {
+					okB = false
+				}
+			}
+			if x.High != nil {
+				if b := it.eval(x.High, st); b.kind == avWord && b.a == 0 && b.b.IsInt64() {
+					hi = b.b.Int64()
+				} else {
+					okB = false
+				}
+			}
+			if okB && lo == 0 && hi == v.blen {
+				return v
+			}
+			if okB && 0 <= lo && lo <= hi && hi <= v.blen {
+				lanes, set := bytesLanes(v)
+				return it.canonBytes(append([]laneSrc(nil), lanes[lo:hi]...), append([]bool(nil), set[lo:hi]...))
+			}
+		}
+		return it.giveUp("slice of %s", v)
 	case *ast.CompositeLit:
 		if _, ok := it.typeOf(x).Underlying().(*types.Slice); ok && len(x.Elts) == 1 {
 			v := it.eval(x.Elts[0], st)
@@ -521,6 +760,135 @@ func (it *codecInterp) eval(e ast.Expr, st *istate) *aval {
 		return it.call(x, st)
 	}
 	return it.giveUp("expression %s", types.ExprString(e))
+}
+
+// laneOp: byte-wise operations of hand-written byte order code – shifts by whole bytes, OR of values
+// whose non-zero bytes do not overlap, AND with a mask of whole bytes. nil when the operands are
+// not of that kind (the affine domain decides then).
+func (it *codecInterp) laneOp(op token.Token, l, r *aval, w int) *aval {
+	if (l.kind != avWord && l.kind != avLanes) || (r.kind != avWord && r.kind != avLanes) {
+		return nil
+	}
+	if w == 0 {
+		w = max(l.w, r.w)
+	}
+	if w == 0 || w%8 != 0 {
+		return nil
+	}
+	switch op {
+	case token.SHL, token.SHR:
+		if r.kind != avWord || r.a != 0 || !r.b.IsInt64() {
+			return nil
+		}
+		n := r.b.Int64()
+		if n%8 != 0 || n < 0 {
+			return nil
+		}
+		if l.kind == avWord && (l.a == 0 || n == 0) {
+			return nil // constants and no-ops stay words
+		}
+		lw := l.w
+		if lw == 0 {
+			lw = w
+		}
+		ll := lanesOf(l, lw)
+		if ll == nil {
+			return nil
+		}
+		k := int(n / 8)
+		out := make([]laneSrc, len(ll))
+		for i := range out {
+			out[i] = laneSrc{zero: true}
+		}
+		for i := range ll {
+			j := i - k // SHL moves a byte towards the top (lower index)
+			if op == token.SHR {
+				j = i + k
+			}
+			if j >= 0 && j < len(ll) {
+				out[j] = ll[i]
+			}
+		}
+		return it.canonLanes(out, lw)
+	case token.OR, token.XOR, token.ADD:
+		if l.kind != avLanes && r.kind != avLanes {
+			return nil
+		}
+		// one byte of a word combined with a constant (b[0] ^ 0x80): that byte of the word with the
+		// constant applied at the byte's place – the other bytes of the new word are those of the old
+		if op != token.ADD && w == 8 {
+			v, k := l, r
+			if v.kind != avLanes {
+				v, k = r, l
+			}
+			if v.kind == avLanes && len(v.lanes) == 1 && !v.lanes[0].zero && k.kind == avWord && k.a == 0 {
+				src := v.lanes[0]
+				W := src.word
+				if W.kind == avWord && W.w > 0 {
+					shifted := new(big.Int).Lsh(new(big.Int).And(k.b, big.NewInt(0xff)), uint(8*src.k))
+					if nw := it.bitop(op, W, constWord(W.w, shifted)); nw != nil && nw.kind == avWord {
+						return &aval{kind: avLanes, w: 8, lanes: []laneSrc{{word: nw, k: src.k}}}
+					}
+					return it.giveUp("%s %s %s", l, op, r)
+				}
+			}
+		}
+		ll, rl := lanesOf(l, w), lanesOf(r, w)
+		if ll == nil || rl == nil {
+			return it.giveUp("%s %s %s", l, op, r)
+		}
+		out := make([]laneSrc, len(ll))
+		for i := range ll {
+			switch {
+			case ll[i].zero:
+				out[i] = rl[i]
+			case rl[i].zero:
+				out[i] = ll[i]
+			default:
+				return it.giveUp("%s %s %s: two non-zero bytes meet", l, op, r)
+			}
+		}
+		return it.canonLanes(out, w)
+	case token.AND:
+		var v, mask *aval
+		switch {
+		case r.kind == avWord && r.a == 0 && (l.kind == avLanes || l.a != 0):
+			v, mask = l, r
+		case l.kind == avWord && l.a == 0 && (r.kind == avLanes || r.a != 0):
+			v, mask = r, l
+		default:
+			return nil
+		}
+		vl := lanesOf(v, w)
+		if vl == nil {
+			return nil
+		}
+		out := make([]laneSrc, len(vl))
+		whole := true
+		for i := range vl {
+			byteK := len(vl) - 1 - i
+			mb := new(big.Int).And(new(big.Int).Rsh(mask.b, uint(8*byteK)), big.NewInt(0xff)).Int64()
+			switch mb {
+			case 0:
+				out[i] = laneSrc{zero: true}
+			case 0xff:
+				out[i] = vl[i]
+			default:
+				whole = false
+			}
+		}
+		if !whole {
+			if v.kind == avLanes {
+				return it.giveUp("%s & %s: the mask cuts through a byte", v, mask)
+			}
+			return nil
+		}
+		return it.canonLanes(out, w)
+	}
+	if l.kind == avLanes || r.kind == avLanes {
+		return it.giveUp("%s %s %s", l, op, r)
+	}
+	return nil
 }
 
 // bitop: l op r on the class; one side must be a constant whose low W-1 bits are all 0 or all 1
@@ -808,9 +1176,32 @@ func (it *codecInterp) call(x *ast.CallExpr, st *istate) *aval {
 				if it.bitsOf(to) == it.W {
 					return it.inputBits()
 				}
+				if tw := it.bitsOf(to); tw > it.W {
+					// widening keeps the value: zero extension of an unsigned key, sign extension of
+					// a signed one (the high bits are all ones on the negative class)
+					in := it.inputBits()
+					if in.kind == avWord {
+						b := new(big.Int).Set(in.b)
+						if it.cl.signed && it.cl.s == 1 {
+							b.Add(b, new(big.Int).Sub(pow2(tw), pow2(it.W)))
+						}
+						return &aval{kind: avWord, w: tw, a: in.a, b: b}
+					}
+				}
 				return it.giveUp("conversion of the key to %d bits", it.bitsOf(to))
 			}
 			return it.giveUp("conversion of the key to %s", to)
+		case avLanes:
+			if basicOf(to) != nil && basicOf(to).Info()&types.IsInteger != 0 {
+				tw := it.bitsOf(to)
+				if tw > v.w && !isUnsignedInt(from) {
+					return it.giveUp("sign extension of %s", v)
+				}
+				if ll := lanesOf(v, tw); ll != nil {
+					return it.canonLanes(ll, tw)
+				}
+			}
+			return it.giveUp("conversion of %s to %s", v, to)
 		case avWord:
 			if basicOf(to) == nil {
 				return it.giveUp("conversion to %s", to)
@@ -826,6 +1217,18 @@ func (it *codecInterp) call(x *ast.CallExpr, st *istate) *aval {
 				}
 				if tw > v.w && isUnsignedInt(from) {
 					return &aval{kind: avWord, w: tw, a: v.a, b: v.b}
+				}
+				if tw < v.w {
+					// the value fits: nothing is cut off
+					if lo, hi := v.rng(it.cl); lo.Sign() >= 0 && hi.Cmp(pow2(tw)) < 0 {
+						return &aval{kind: avWord, w: tw, a: v.a, b: v.b}
+					}
+					// the low bytes of the word
+					if tw%8 == 0 && v.w%8 == 0 {
+						if ll := lanesOf(v, v.w); ll != nil {
+							return it.canonLanes(ll[len(ll)-tw/8:], tw)
+						}
+					}
 				}
 				return it.giveUp("conversion of a %d-bit word to %d bits", v.w, tw)
 			case isFloatT(to) && v.a == 0:
@@ -909,10 +1312,22 @@ func (it *codecInterp) call(x *ast.CallExpr, st *istate) *aval {
 			return constWord(it.bitsOf(types.Typ[types.Uintptr]), big.NewInt(it.c.L.Sizes.Sizeof(t)))
 		}
 	}
+	if (isBuiltinCall(info, x, "len") || isBuiltinCall(info, x, "cap")) && len(x.Args) == 1 {
+		if v := arg(0); v.kind == avBytes {
+			return constWord(64, big.NewInt(v.blen))
+		}
+		return it.giveUp("len of something that is not an encoded slice")
+	}
 	if isBuiltinCall(info, x, "make") && len(x.Args) >= 2 {
 		n := arg(1)
-		if n.kind == avWord && n.a == 0 {
-			return &aval{kind: avBytes, blen: n.b.Int64()}
+		if n.kind == avWord && n.a == 0 && n.b.IsInt64() && n.b.Int64() <= 64 {
+			// make zeroes the bytes
+			k := int(n.b.Int64())
+			lanes, set := make([]laneSrc, k), make([]bool, k)
+			for i := range lanes {
+				lanes[i], set[i] = laneSrc{zero: true}, true
+			}
+			return &aval{kind: avBytes, blen: n.b.Int64(), lanes: lanes, set: set}
 		}
 		return it.giveUp("make with a non-constant length")
 	}
@@ -979,6 +1394,15 @@ func (it *codecInterp) call(x *ast.CallExpr, st *istate) *aval {
 				k++
 			}
 		}
+		if cu.Decl.Type.Results != nil {
+			for _, f := range cu.Decl.Type.Results.List {
+				for _, nm := range f.Names {
+					if rv, ok := info.Defs[nm].(*types.Var); ok {
+						env[rv] = it.zeroOf(rv.Type())
+					}
+				}
+			}
+		}
 		savedTerm := it.term
 		savedTP := it.tparams
 		{
@@ -1017,18 +1441,79 @@ func (it *codecInterp) call(x *ast.CallExpr, st *istate) *aval {
 				if int(8*it.c.L.Sizes.Sizeof(ta)) != it.W {
 					return it.giveUp("delegation to %s, whose key type has another width", types.TypeString(nt, nil))
 				}
-				if isFloatT(ta) != it.cl.float || (!it.cl.float && isSignedInt(ta) != it.cl.signed) {
+				// a codec of another kind may be handed a word the caller computed (the signed codec
+				// flipping the sign bit and leaving the byte layout to the unsigned one) or the
+				// encoding to decode; it must not be handed the key itself, whose value classes are
+				// those of the caller's kind
+				keyArg := false
+				for _, av := range env {
+					if av != nil && av.kind == avKey {
+						keyArg = true
+					}
+				}
+				if keyArg && (isFloatT(ta) != it.cl.float || (!it.cl.float && isSignedInt(ta) != it.cl.signed)) {
 					return it.giveUp("delegation to %s, whose key type is of another kind", types.TypeString(nt, nil))
 				}
 				it.term = ta
 			}
 		}
+		before := map[*types.Var]string{}
+		for pv, av := range env {
+			if av != nil {
+				before[pv] = av.String()
+			}
+		}
 		it.depth++
 		outs := it.execList(cu.Body.List, []*istate{{env: env}})
 		it.depth--
+		// a slice parameter the helper stored into (putUint(b, v)): the caller's slice has the bytes
+		{
+			k := 0
+			for _, f := range cu.Decl.Type.Params.List {
+				for _, nm := range f.Names {
+					if k < len(x.Args) {
+						pv, _ := info.Defs[nm].(*types.Var)
+						cv, _ := info.ObjectOf(identOf(x.Args[k])).(*types.Var)
+						if pv != nil && cv != nil && env[pv] != nil && env[pv].kind == avBytes {
+							var fin *aval
+							same := true
+							for _, o := range outs {
+								if o.ret == nil && o.done && len(outs) > 1 {
+									continue // panicking path
+								}
+								v := o.env[pv]
+								if v == nil || v.kind != avBytes {
+									same = false
+								} else if fin == nil {
+									fin = v
+								} else if fin.String() != v.String() {
+									same = false
+								}
+							}
+							if os.Getenv("ARTCHECK_DEBUG") == "interp" {
+								fmt.Fprintf(os.Stderr, "WRITEBACK %s term=%v param=%s same=%v fin=%v before=%v outs=%d fail=%q\n", cu.Name, it.term, pv.Name(), same, fin, before[pv], len(outs), it.fail)
+							}
+							if same && fin != nil && fin.String() != before[pv] {
+								if _, tracked := st.env[cv]; tracked {
+									st.env[cv] = fin
+								}
+							} else if !same {
+								st.env[cv] = unknown("slice written differently on the paths of %s", cu.Name)
+							}
+						}
+					}
+					k++
+				}
+			}
+		}
 		it.term = savedTerm
 		it.tparams = savedTP
 		var res *aval
+		if cu.Decl.Type.Results == nil || len(cu.Decl.Type.Results.List) == 0 {
+			// a helper without results (putUint(b, v)): its effect is what it stored through its
+			// slice parameters, written back above
+			return &aval{kind: avBool, known: true}
+		}
 		for _, o := range outs {
 			if !o.done {
 				return it.giveUp("helper %s: a path does not return", cu.Name)
@@ -1063,6 +1548,30 @@ func (it *codecInterp) assign(st *istate, lhs ast.Expr, v *aval) {
 		if lv, ok := it.info.ObjectOf(id).(*types.Var); ok {
 			st.env[lv] = v
 			return
+		}
+	}
+	if ie, ok := ast.Unparen(lhs).(*ast.IndexExpr); ok {
+		// b[i] = byte: hand-written byte order
+		if base, ok := it.info.ObjectOf(identOf(ie.X)).(*types.Var); ok && base != nil {
+			cur := st.env[base]
+			iv := it.eval(ie.Index, st)
+			if cur != nil && cur.kind == avBytes && iv.kind == avWord && iv.a == 0 && iv.b.IsInt64() {
+				i := iv.b.Int64()
+				var ln []laneSrc
+				switch {
+				case v.kind == avWord && (v.w == 8 || v.w == 0):
+					ln = lanesOf(v, 8)
+				case v.kind == avLanes && len(v.lanes) == 1:
+					ln = v.lanes
+				}
+				if ln != nil && i >= 0 && i < cur.blen {
+					lanes, set := bytesLanes(cur)
+					lanes, set = append([]laneSrc(nil), lanes...), append([]bool(nil), set...)
+					lanes[i], set[i] = ln[0], true
+					st.env[base] = it.canonBytes(lanes, set)
+					return
+				}
+			}
 		}
 	}
 	it.giveUp("assignment to %s", types.ExprString(lhs))
@@ -1239,6 +1748,102 @@ func (it *codecInterp) exec(s ast.Stmt, st *istate) []*istate {
 				}
 				return it.exec(x.Else, s)
 			})
+	case *ast.RangeStmt:
+		// range over the bytes of a slice of known length: unrolled
+		coll := it.eval(x.X, st)
+		if coll.kind == avBytes && coll.blen <= 16 && x.Tok != token.ASSIGN {
+			lanes, set := bytesLanes(coll)
+			cur := []*istate{st}
+			for i := range lanes {
+				if !set[i] {
+					it.giveUp("range over %s: byte %d has no tracked value", coll, i)
+					return cur
+				}
+				var next []*istate
+				for _, s := range cur {
+					if s.done {
+						next = append(next, s)
+						continue
+					}
+					if x.Key != nil {
+						it.assign(s, x.Key, constWord(64, big.NewInt(int64(i))))
+					}
+					if x.Value != nil {
+						it.assign(s, x.Value, it.canonLanes([]laneSrc{lanes[i]}, 8))
+					}
+					next = append(next, it.execList(x.Body.List, []*istate{s})...)
+				}
+				cur = next
+				if len(cur) > 64 {
+					it.giveUp("too many paths")
+					return cur
+				}
+			}
+			return cur
+		}
+		if coll.kind == avWord && coll.a == 0 && coll.b.IsInt64() && coll.b.Int64() <= 16 && x.Value == nil && x.Tok != token.ASSIGN {
+			// range over a constant integer
+			cur := []*istate{st}
+			for i := int64(0); i < coll.b.Int64(); i++ {
+				var next []*istate
+				for _, s := range cur {
+					if s.done {
+						next = append(next, s)
+						continue
+					}
+					if x.Key != nil {
+						it.assign(s, x.Key, constWord(64, big.NewInt(i)))
+					}
+					next = append(next, it.execList(x.Body.List, []*istate{s})...)
+				}
+				cur = next
+			}
+			return cur
+		}
+		it.giveUp("range over %s", coll)
+		return []*istate{st}
+	case *ast.ForStmt:
+		// a loop whose condition is decided at every iteration (constant bounds): unrolled
+		if x.Init != nil {
+			sts := it.exec(x.Init, st)
+			if len(sts) != 1 {
+				it.giveUp("loop init with several outcomes")
+				return sts
+			}
+			st = sts[0]
+		}
+		for iter := 0; ; iter++ {
+			if iter > 32 {
+				it.giveUp("loop does not end within 32 iterations")
+				return []*istate{st}
+			}
+			if x.Cond != nil {
+				cv := it.eval(x.Cond, st)
+				if cv.kind != avBool || !cv.known {
+					it.giveUp("loop condition %s is not decided", types.ExprString(x.Cond))
+					return []*istate{st}
+				}
+				if !cv.val {
+					return []*istate{st}
+				}
+			}
+			sts := it.execList(x.Body.List, []*istate{st})
+			if len(sts) != 1 {
+				it.giveUp("loop body with several outcomes")
+				return sts
+			}
+			st = sts[0]
+			if st.done {
+				return []*istate{st}
+			}
+			if x.Post != nil {
+				sts = it.exec(x.Post, st)
+				if len(sts) != 1 {
+					return sts
+				}
+				st = sts[0]
+			}
+		}
 	case *ast.TypeSwitchStmt:
 		// switch any(k).(type): the arm of the current term
 		var deflt *ast.CaseClause
@@ -1315,6 +1920,9 @@ func isTypeParam(t types.Type) bool {
 
 // binaryOn applies a binary operator to already evaluated operands (compound assignments).
 func (it *codecInterp) binaryOn(be *ast.BinaryExpr, l, r *aval, lt types.Type) *aval {
+	if res := it.laneOp(be.Op, l, r, it.bitsOf(lt)); res != nil {
+		return res
+	}
 	if l.kind != avWord || r.kind != avWord {
 		return it.giveUp("%s %s %s", l, be.Op, r)
 	}
@@ -1506,6 +2114,9 @@ func (c *Ctx) interpretCodecArm(tu, ru *FuncUnit, term types.Type) codecVerdict 
 				return codecVerdict{unknown: "Transform does not return two values"}
 			}
 			for _, r := range o.ret {
+				if why := droppedByte(r, cl); why != "" {
+					return codecVerdict{decided: true, detail: fmt.Sprintf("on class %s %s", cl.name, why)}
+				}
 				if r.kind != avBytes || r.word == nil {
 					return codecVerdict{unknown: fmt.Sprintf("Transform on class %s returns %s", cl.name, r)}
 				}
@@ -1619,8 +2230,15 @@ func (c *Ctx) interpretCodecArm(tu, ru *FuncUnit, term types.Type) codecVerdict 
 		r := rwork[0]
 		rwork = rwork[1:]
 		it := &codecInterp{c: c, info: info, term: term, W: W, cl: r.cl}
-		st := &istate{env: map[*types.Var]*aval{bv: {kind: avBytes, blen: int64(W / 8), word: r.code, order: "big"}}}
+		enc := &aval{kind: avBytes, blen: int64(W / 8), word: r.code, order: "big"}
+		encText := enc.String()
+		st := &istate{env: map[*types.Var]*aval{bv: enc}}
 		outs := it.execList(ru.Body.List, []*istate{st})
+		for _, o := range outs {
+			if cur := o.env[bv]; it.fail == "" && cur != nil && cur.kind == avBytes && cur.String() != encText && !assignedAnywhere(info, ru.Body, bv) {
+				return codecVerdict{decided: true, detail: fmt.Sprintf("Restore stores into the encoding it is given (on the code of %s the bytes %s become %s): the bytes are the stored key of a leaf, so decoding the same key again yields another value and the stored key no longer sorts where it was inserted", where(r), encText, cur)}
+			}
+		}
 		if it.fail != "" {
 			if it.splitAt != nil && r.cl.depth() < 4 {
 				a, b := splitClass(r.cl, it.splitAt)
@@ -1724,4 +2342,158 @@ func (it *codecInterp) wrapAffine(res *aval, what string) *aval {
 		it.splitAt = sp
 	}
 	return it.giveUp("%s wraps around on part of class %s", what, it.cl.name)
+}
+
+// tableLookup: T[i] with T a package-level array or slice of integer constants that nothing in the
+// package writes to (reserved codes looked up by class) and i a constant on this path.
+func (it *codecInterp) tableLookup(x *ast.IndexExpr, st *istate) *aval {
+	id, ok := ast.Unparen(x.X).(*ast.Ident)
+	if !ok {
+		return nil
+	}
+	tv, ok := it.info.ObjectOf(id).(*types.Var)
+	if !ok || tv.Parent() != it.c.m.Pkg.Scope() {
+		return nil
+	}
+	var elemT types.Type
+	switch t := tv.Type().Underlying().(type) {
+	case *types.Array:
+		elemT = t.Elem()
+	case *types.Slice:
+		elemT = t.Elem()
+	default:
+		return nil
+	}
+	if b := basicOf(elemT); b == nil || b.Info()&types.IsInteger == 0 {
+		return nil
+	}
+	// the initialiser
+	var lit *ast.CompositeLit
+	written := false
+	for _, f := range it.c.L.Art.Syntax {
+		ast.Inspect(f, func(n ast.Node) bool {
+			switch y := n.(type) {
+			case *ast.ValueSpec:
+				for i, nm := range y.Names {
+					if it.info.Defs[nm] == tv && i < len(y.Values) {
+						lit, _ = ast.Unparen(y.Values[i]).(*ast.CompositeLit)
+					}
+				}
+			case *ast.AssignStmt:
+				for _, l := range y.Lhs {
+					if rv, _ := rootVar(it.info, l); rv == tv {
+						written = true
+					}
+				}
+			case *ast.IncDecStmt:
+				if rv, _ := rootVar(it.info, y.X); rv == tv {
+					written = true
+				}
+			case *ast.UnaryExpr:
+				if y.Op == token.AND {
+					if rv, _ := rootVar(it.info, y.X); rv == tv {
+						written = true
+					}
+				}
+			case *ast.SliceExpr:
+				if rv, _ := rootVar(it.info, y.X); rv == tv {
+					written = true // a slice of it may be written through
+				}
+			}
+			return true
+		})
+	}
+	if lit == nil || written {
+		return it.giveUp("table %s is not a constant table", id.Name)
+	}
+	iv := it.eval(x.Index, st)
+	if iv.kind != avWord || iv.a != 0 || !iv.b.IsInt64() {
+		return it.giveUp("index into table %s is not constant on this path", id.Name)
+	}
+	want := iv.b.Int64()
+	w := it.bitsOf(elemT)
+	next := int64(0)
+	var found *aval
+	maxIdx := int64(-1)
+	for _, el := range lit.Elts {
+		val := el
+		if kv, ok := el.(*ast.KeyValueExpr); ok {
+			ktv, ok := it.info.Types[kv.Key]
+			if !ok || ktv.Value == nil {
+				return it.giveUp("table %s has a non-constant key", id.Name)
+			}
+			k, _ := constant.Int64Val(ktv.Value)
+			next = k
+			val = kv.Value
+		}
+		if next > maxIdx {
+			maxIdx = next
+		}
+		if next == want {
+			vtv, ok := it.info.Types[val]
+			if !ok || vtv.Value == nil {
+				return it.giveUp("table %s has a non-constant element", id.Name)
+			}
+			bi := bigOf(vtv.Value)
+			if bi == nil {
+				return it.giveUp("table %s element", id.Name)
+			}
+			found = constWord(w, wrapConst(bi, w))
+		}
+		next++
+	}
+	if found != nil {
+		return found
+	}
+	if want >= 0 && want <= maxIdx {
+		return constWord(w, new(big.Int)) // an index the literal skips: zero
+	}
+	return it.giveUp("index %d outside table %s", want, id.Name)
+}
+
+// droppedByte: the encoding holds the bytes of one word at their big-endian places except that
+// some byte is a constant zero although that byte of the word takes more than one value on the
+// class: keys that differ only there are encoded alike (a byte-filling loop that stops one short).
+func droppedByte(r *aval, cl *keyClass) string {
+	if r.kind != avBytes || r.word != nil || r.lanes == nil {
+		return ""
+	}
+	n := len(r.lanes)
+	var W *aval
+	var zeros []int
+	for i, ln := range r.lanes {
+		if i < len(r.set) && !r.set[i] {
+			return ""
+		}
+		if ln.zero {
+			zeros = append(zeros, i)
+			continue
+		}
+		if ln.k != n-1-i {
+			return ""
+		}
+		if W == nil {
+			W = ln.word
+		} else if W.String() != ln.word.String() || W.w != ln.word.w {
+			return ""
+		}
+	}
+	if W == nil || len(zeros) == 0 || W.kind != avWord || W.a == 0 {
+		return ""
+	}
+	lo, hi := W.rng(cl)
+	if lo.Sign() < 0 {
+		return ""
+	}
+	for _, i := range zeros {
+		k := n - 1 - i
+		// the range holds x and x + 2^(8k) with byte k of x below 0xff (so that they differ in that
+		// byte only) as soon as it spans 2·2^(8k): of lo and lo + 2^(8k) one has such a byte
+		span := new(big.Int).Sub(hi, lo)
+		need := pow2(8*k + 1)
+		if span.Cmp(need) >= 0 {
+			return fmt.Sprintf("byte %d of the encoding is always 0 although the corresponding byte of the encoded word (%s) varies with the key: keys that differ only in that byte are encoded alike", i, W)
+		}
+	}
+	return ""
 }
